@@ -651,6 +651,79 @@ def clone_deep(ctx, r):
     r.ob(bool(ok), "prelude.abra:Clone for array:not-a-deep-copy", PRELUDE, f[-1], f"array clone must create a fresh array, push Clone.clone(x) for every element x and return the new array (new={new}, pushed={pushed})", sample=f"Clone for array: new [] ; push {pushed} ; return {new}")
 
 
+def must_use_as_index(stmts, param, recv="self"):
+    """Does every path through `stmts` apply `param` as a subscript of `recv` (directly or via self.swap / array_get / array_set)?
+    Uses inside loops or inside one branch only do not count (must-analysis)."""
+
+    def expr_uses(e):
+        for x in A.walk(e):
+            if not (isinstance(x, tuple) and x):
+                continue
+            if x[0] == "index" and A.show(x[1]) == recv and any(isinstance(y, tuple) and y and y[0] == "var" and y[1] == param for y in A.walk(x[2])):
+                return True
+            if x[0] == "call" and A.show(x[1]) in (f"{recv}.swap", "array_get", "array_set") and any(a[1][0] == "var" and a[1][1] == param for a in x[2]):
+                return True
+        return False
+
+    def block_uses(stmts):
+        for s in stmts:
+            k = s[0]
+            if k in ("while", "for"):
+                # the loop header is evaluated at least once for while; the body may not run
+                if k == "while" and expr_uses(s[1]):
+                    return True
+                if k == "for" and expr_uses(s[2]):
+                    return True
+                continue
+            if k == "expr" and s[1][0] == "if":
+                e = s[1]
+                if expr_uses(e[1]):
+                    return True
+                if e[3] is not None and block_uses(e[2][1]) and block_uses(e[3][1]):
+                    return True
+                continue
+            if k == "return":
+                return s[1] is not None and expr_uses(s[1])
+            if k == "let" and expr_uses(s[4]):
+                return True
+            if k == "assign" and (expr_uses(s[2]) or expr_uses(s[3])):
+                return True
+            if k == "expr" and expr_uses(s[1]):
+                return True
+        return False
+
+    return block_uses(stmts)
+
+
+@rule("INDEX-MUST-USE", ["C26"], "array methods taking a position apply it to a bounds-checked subscript on every path (an out-of-range position stops with the runtime error)")
+def index_must_use(ctx, r):
+    items = abra(ctx, r, PRELUDE)
+    if items is None:
+        return
+    n = 0
+    for it in items:
+        if it[0] != "extend" or A.type_name(it[1]).split("<")[0] != "array":
+            continue
+        for f in it[2]:
+            body = f[4]
+            if body is None or body[0] != "block":
+                continue
+            params = [p[0] for p in f[2] if p[0] != "self"]
+            for p in params:
+                # positions: parameters that are used as a subscript of self somewhere in the method
+                # (the parameter itself is the subscript: helper offsets such as self[left + i] are not positions of the public API)
+                used_somewhere = any(isinstance(x, tuple) and x and ((x[0] == "index" and A.show(x[1]) == "self" and x[2][0] == "var" and x[2][1] == p)
+                                     or (x[0] == "call" and A.show(x[1]) == "self.swap" and any(a[1][0] == "var" and a[1][1] == p for a in x[2]))) for x in A.walk(body))
+                if not used_somewhere:
+                    continue
+                n += 1
+                ok = must_use_as_index(body[1], p)
+                r.ob(ok, f"prelude.abra:array.{f[1]}:{p}:position-not-checked-on-every-path", PRELUDE, f[-1],
+                     f"array.{f[1]}: the position parameter `{p}` reaches a subscript of `self` only on some paths; on the others an out-of-range `{p}` is accepted silently instead of stopping with the array-bounds runtime error",
+                     sample=f"array.{f[1]}: `{p}` is subscripted on every path")
+    r.count("position parameters of array methods", n, 3, PRELUDE)
+
+
 @rule("HASH-ARITH", ["C27"], "core/map never applies an overflow-capable operation to a hash code; core/set delegates every operation to the same-named map operation")
 def hash_arith(ctx, r):
     mp = abra(ctx, r, MAP)
